@@ -14,8 +14,10 @@ def C06_units : List (String × String) := [
   ("sanitize.go/func/*Policy.sanitize/case:html.CommentToken", "320296cf3dc2a363"),
   ("sanitize.go/func/*Policy.sanitize/case:html.StartTagToken", "06e5b6a502de1bc0"),
   ("sanitize.go/func/*Policy.sanitize/case:html.EndTagToken", "13ba196cca634709"),
+  ("sanitize.go/func/*Policy.sanitize/case:html.SelfClosingTagToken", "579a9bca378883dd"),
   ("sanitize.go/func/*Policy.sanitize/case:html.TextToken", "c2658786898b5dd8"),
-  ("sanitize.go/func/*Policy.sanitize/around-switch", "cd2e2ace16007f49")
+  ("sanitize.go/func/*Policy.sanitize/around-switch", "cd2e2ace16007f49"),
+  ("sanitize.go/func/normaliseElementName", "2bf67939cdf5b934")
 ]
 
 set_option maxRecDepth 100000 in
